@@ -40,6 +40,7 @@ Definition event_eqb (a b : event) : bool :=
   | EOther => false
   | ECreate f k s => match b with ECreate f' k' s' => N.eqb f f' && rkind_eqb k k' && (s =? s') | _ => false end
   | EFileNew f => match b with EFileNew f' => N.eqb f f' | _ => false end
+  | EFileDel f => match b with EFileDel f' => N.eqb f f' | _ => false end
   | EFileHdr f k => match b with EFileHdr f' k' => N.eqb f f' && rkind_eqb k k' | _ => false end
   | EWalCreate w => match b with EWalCreate w' => N.eqb w w' | _ => false end
   | EWalFsync w => match b with EWalFsync w' => N.eqb w w' | _ => false end
